@@ -487,7 +487,7 @@ func TestVerifC33(t *testing.T) {
 		}
 	}
 	// 2. generated cases (UTC)
-	n := vk.N(200000, 12000000)
+	n := vk.N(600000, 12000000)
 	for i := 0; i < n; i++ {
 		checkCase(vk.RandFor(3301, i), i)
 	}
@@ -505,7 +505,7 @@ func TestVerifC33(t *testing.T) {
 			}
 			time.Local = loc
 			zone = zn
-			m := vk.N(20000, 1000000)
+			m := vk.N(60000, 1000000)
 			for i := 0; i < m; i++ {
 				checkCase(vk.RandFor(uint64(3310+zi), i), i)
 			}
